@@ -229,7 +229,7 @@ func sortedKeys(m map[string]int) []string {
 // GenText returns the n-th unique text of party p. Texts start with a marker
 // that makes each one attributable to exactly one Send call.
 func (w *World) GenText(p *Party, class int, alphabet int) []byte {
-	lens := []int{0, 3, 12, 40, 200, 900, 3000, 20000}
+	lens := []int{0, 3, 12, 40, 200, 900, 3000, 20000, 70000}
 	n := p.Sends
 	p.Sends++
 	pr := Fork(w.Seed, "text."+p.Name, uint64(n))
